@@ -124,6 +124,9 @@ func main() {
 			x.edgeProbes()
 		case 1:
 			next := x.run(it.lo, it.hi)
+			if f.Tier == "thorough" {
+				fmt.Fprintf(os.Stderr, "shard %d: sub-range [%d, %d] evaluated up to %d, %.0fs, violations so far %d\n", f.Shard, it.lo, it.hi, next-1, time.Since(f.Start).Seconds(), x.violTotal)
+			}
 			if next > it.lo {
 				done = append(done, [2]int64{it.lo, next - 1})
 			}
@@ -155,7 +158,7 @@ func main() {
 
 	r.Extra["domain"] = fmt.Sprintf("every tick of [%d, %d] (%d ticks) + the documented alias %d + the finite out-of-range probe set", domLo, domHi, domHi-domLo+1, aliasTick)
 	if f.Tier == "thorough" {
-		r.Extra["lattice"] = "the whole domain, in contiguous sub-ranges of 1 000 000 ticks dealt round-robin to the shards"
+		r.Extra["lattice"] = "the whole domain, in 612 contiguous sub-ranges of 1 000 000 ticks (the last one 1 000 001): sub-range i = [-270000000 + i*1000000, ...] belongs to shard (i + 1 + VERIF_SEED) mod nshards, each shard takes its sub-ranges in ascending order"
 		key := fmt.Sprintf("completed_shard_%02d", f.Shard)
 		if complete {
 			r.Extra[key] = fmt.Sprintf("all %d of its sub-ranges", len(done))
